@@ -421,3 +421,124 @@ def library_nuclide_absent_from_the_block_contributes_nothing(
         assert eq(m.chi[0], 1.0), "chi is that of the only fissioning nuclide present"
     else:
         assert eq(m.chi[0], 0.0)
+
+
+# ----------------------------------------------------------------------------- multiplier library, gamma data, odd shapes
+class SizedLibrary(Library):
+    """Library stand-in with the length of the real one (_XSLibrary.__len__ = number of nuclides): the code under
+    contract tests `if multLib:`"""
+
+    def __len__(self):
+        return len(self.nuclides)
+
+
+@lemma(gen={"nn": (1, 3), "ng": (1, 2), "nm": (1, 3)})
+def group_constants_with_a_multiplier_library(nn: int, ng: int, nm: int, n1: float, n2: float, n3: float,
+                                              a1: float, a2: float, b1: float, b2: float, c1: float, c2: float,
+                                              u1: float, u2: float, v1: float, v2: float, w1: float, w2: float, z: float):
+    """multLib (gamma production: the multiplier comes from ANOTHER library): Sigma_g = sum_i N_i sigma_i,g m_i,g with
+    sigma from `lib` and m from `multLib`; a nuclide without data in multLib contributes nothing (documented: reported,
+    not an error).  1..3 nuclides x 1..2 groups; multLib holds the LAST nm >= 1 of them (enumerated), so that the sum
+    starts with a skipped nuclide; lib carries a decoy multiplier z + 7 that must not be used."""
+    nn = choose(nn, 1, 3)
+    ng = choose(ng, 1, 2)
+    nm = choose(nm, 1, nn)
+    dens = [n1, n2, n3]
+    sig = [[a1, a2], [b1, b2], [c1, c2]]
+    mul = [[u1, u2], [v1, v2], [w1, w2]]
+    inMult = [i >= nn - nm for i in range(3)]
+    assume(any([dens[i] != 0 and inMult[i] for i in range(nn)]))
+    lib = library(nn, ng, sig, nu=[[z + 7.0, z + 7.0]] * 3)
+    mnucs = {}
+    for i in range(nn):
+        if inMult[i]:
+            mnucs[NAMES[i] + SFX] = new(Nuclide, name=NAMES[i], micros=new(Micro, neutronsPerFission=arr(mul[i], ng)), isotxsMetadata={})
+    multLib = new(SizedLibrary, nuclides=mnucs)
+    m = xsc.computeMacroscopicGroupConstants("fission", comp(nn, dens), lib, SFX, libType="micros", multConstant="neutronsPerFission", multLib=multLib)
+    assert m.shape == (ng,)
+    for g in range(ng):
+        expected = 0.0
+        for i in range(nn):
+            if inMult[i]:
+                expected = expected + dens[i] * sig[i][g] * mul[i][g]
+        assert eq(m[g], expected), "sum over the nuclides the multiplier library knows of N x sigma x multiplier"
+    assert eq(lib.nuclides["AAA"].micros.fission[0], a1), "the libraries are not changed"
+
+
+@lemma(gen=G)
+def gamma_group_constants_come_from_the_gamma_collection(nn: int, ng: int, n1: float, n2: float, n3: float,
+                                                         a1: float, a2: float, b1: float, b2: float, c1: float, c2: float,
+                                                         k1: float, k2: float, k3: float, z: float):
+    """libType='gammaXS': the gamma cross sections of the nuclides (their own collection, next to the neutron one which
+    carries decoy values z) are summed; with a multiplier found in the nuclide metadata (not in the gamma collection)
+    that scalar per nuclide is used.  1..3 nuclides x 1..2 groups."""
+    nn = choose(nn, 1, 3)
+    ng = choose(ng, 1, 2)
+    dens = [n1, n2, n3]
+    sig = [[a1, a2], [b1, b2], [c1, c2]]
+    kap = [k1, k2, k3]
+    assume(any([dens[i] != 0 for i in range(nn)]))
+    nucs = {}
+    for i in range(nn):
+        nucs[NAMES[i] + SFX] = new(Nuclide, name=NAMES[i], micros=new(Micro, total=arr([z, z + 1.0], ng), scale=arr([z, z], ng)),
+                                   gammaXS=new(Micro, total=arr(sig[i], ng)), isotxsMetadata={"scale": kap[i]})
+    lib = new(Library, nuclides=nucs)
+    m = xsc.computeMacroscopicGroupConstants("total", comp(nn, dens), lib, SFX, libType="gammaXS")
+    mk = xsc.computeMacroscopicGroupConstants("total", comp(nn, dens), lib, SFX, libType="gammaXS", multConstant="scale")
+    assert m.shape == (ng,) and mk.shape == (ng,)
+    for g in range(ng):
+        assert eq(m[g], wsum(nn, g, dens, sig)), "gamma data, not neutron data"
+        assert eq(mk[g], wsum(nn, g, dens, sig, [[kap[i], kap[i]] for i in range(3)])), "per-nuclide scalar from the metadata"
+    assert xsc._getLibTypeSuffix("micros") == "" and xsc._getLibTypeSuffix("gammaXS") == "Gamma" and xsc._getLibTypeSuffix("other") is None
+
+
+@lemma(gen={"ng": (1, 2), "nz": (1, 3)})
+def nuclide_without_data_of_another_length_contributes_nothing(ng: int, nz: int, n1: float, n2: float, a1: float, a2: float):
+    """a nuclide whose constants are all zero but stored with another number of groups (dummy / default data) adds
+    nothing - the result keeps the shape of the real data.  1..2 groups for A, 1..3 zero entries for B (enumerated)."""
+    ng = choose(ng, 1, 2)
+    nz = choose(nz, 1, 3)
+    assume(n1 != 0)
+    lib = library(1, ng, [[a1, a2]])
+    lib.nuclides["B" + SFX] = new(Nuclide, name="B", micros=new(Micro, fission=np.zeros(nz)), isotxsMetadata={})
+    m = xsc.computeMacroscopicGroupConstants("fission", {"A": n1, "B": n2}, lib, SFX, libType="micros")
+    assert m.shape == (ng,)
+    for g in range(ng):
+        assert eq(m[g], n1 * [a1, a2][g])
+
+
+# ----------------------------------------------------------------------------- one-group collapse, default data
+GC = {"ng": (1, 4), "s1": (0.0, 50.0), "s2": (0.0, 50.0), "s3": (0.0, 50.0), "s4": (0.0, 50.0), "p1": [0.0, 1.0, 2.5e14], "p2": [0.0, 3.0, 1e13],
+      "p3": [0.5, 7.0, 4e12], "p4": [0.0, 2.0, 5e14], "k": (0.1, 100.0)}
+
+
+@lemma(gen=GC)
+def collapsed_cross_section_is_the_flux_weighted_mean(ng: int, s1: float, s2: float, s3: float, s4: float, p1: float, p2: float, p3: float,
+                                                      p4: float, k: float):
+    """XSCollection.collapseCrossSection for 1..4 groups (enumerated), cross sections arbitrary, weights (flux) >= 0 and
+    not all zero: sigma x sum_g phi_g = sum_g sigma_g phi_g; hence between the smallest and the largest sigma_g of the
+    groups with flux, the common value when those agree, and unchanged by rescaling the flux"""
+    ng = choose(ng, 1, 4)
+    sig, phi = [s1, s2, s3, s4][:ng], [p1, p2, p3, p4][:ng]
+    assume(all(p >= 0 for p in phi) and any(p > 0 for p in phi) and k > 0)
+    one = XSCollection.collapseCrossSection(sig, phi)
+    assert eq(one * sum(phi), sum(s * p for s, p in zip(sig, phi))), "flux-weighted mean"
+    tol = 1e-9 * (1.0 + abs(one)) if NATIVE else 0.0
+    assert any(p > 0 and s <= one + tol for s, p in zip(sig, phi)) and any(p > 0 and s >= one - tol for s, p in zip(sig, phi)), "between min and max"
+    for s0, p0 in zip(sig, phi):
+        assert implies(p0 > 0 and all(implies(p > 0, s == s0) for s, p in zip(sig, phi)), eq(one, s0)), "the common value"
+    assert eq(XSCollection.collapseCrossSection(sig, [k * p for p in phi]), one), "independent of the flux normalisation"
+    assert eq(XSCollection.collapseCrossSection(np.array(sig), np.array(phi)), one), "arrays or lists"
+
+
+@lemma(gen={"n": (1, 4), "m": (1, 4)})
+def default_cross_sections_are_zero_vectors(n: int, m: int):
+    """XSCollection.getDefaultXs(numGroups) for 1..4 groups (two sizes in one run, enumerated): a vector of numGroups
+    zeros; asking again gives the same data, and a request for another size does not disturb it"""
+    n = choose(n, 1, 4)
+    m = choose(m, 1, 4)
+    a = XSCollection.getDefaultXs(n)
+    b = XSCollection.getDefaultXs(m)
+    a2 = XSCollection.getDefaultXs(n)
+    assert a.shape == (n,) and b.shape == (m,) and a2.shape == (n,)
+    assert all(eq(a[g], 0.0) for g in range(n)) and all(eq(b[g], 0.0) for g in range(m)) and all(eq(a2[g], 0.0) for g in range(n))
